@@ -13,7 +13,7 @@ Lemma parse_agree : mem_s "py_parse" translated = true ->
 Proof.
   intros Hin msgmode validate bf message. first [untranslated Hin | clear Hin].
   all: unfold py_parse, parse, parse_front, valcksum.
-  all: cbn [g_len g_sub g_add g_band g_slice g_le g_lt g_in existsb gbytes gint bind g_eq pv_eq g_is_none gnone negb
+  all: cbn [g_len g_sub g_add g_band g_slice slice_of g_le g_lt g_in existsb gbytes gint bind g_eq pv_eq g_is_none gnone negb
        g_calc_checksum g_getinputmode g_bytes2val].
   all: rewrite ?truth_land1, ?bytes2val_U2, <- ?app_assoc, ?app_nil_r.
   all: cbn [bind g_eq pv_eq].
